@@ -123,9 +123,11 @@ def run_J3(records, cut, mid, salt, findings):
     masks = {sid: ref.cache_mask(o) for sid, o in objs.items()}
     kinds = {sid: ref.kind_of(o) for sid, o in objs.items()}
 
+    keep = needed_after(records, mid)
+
     def stage(inp):
         outs, objs2, us2 = _traced_run(records, cut, mid, inp, objs, us)
-        new = {sid: o for sid, o in objs2.items() if sid not in objs}
+        new = {sid: o for sid, o in objs2.items() if sid not in objs and sid in keep}
         return outs, new, {sid: u for sid, u in us2.items() if sid not in objs}
 
     o_mid, new_objs, new_us = _wrap("J3.stage", lambda: jax.jit(stage)(inputs))
@@ -285,6 +287,14 @@ def gen_detail(mode, records, seed, k, cfg, w0):
         if cuts is None:
             return None
         cut, mid = cuts
+        # only factors, measures, densities and linear conditionals are promised to cross boundaries
+        crossing = set(needed_after(records, cut))
+        if mode == "J3" and mid is not None:
+            crossing |= set(needed_after(records, mid))
+        for sid in crossing:
+            sl = w0.slots.get(sid)
+            if sl is not None and (sl.kind == "trunc" or sl.cls in model.APPROX):
+                return None
         if mode == "J2":
             return {"cut": cut}
         if mid is None:
